@@ -107,6 +107,48 @@ def drive(pid, binp, scripts, work, V):
     return traces
 
 
+PLAN["C08"] = {"module": "Salts", "mc": [], "sim": [("Salts_sim.cfg", 15, 150, 1500)]}
+PLAN["C07"] = {"module": "MsgHdr", "mc": ["MsgHdr_mc.cfg"], "sim": [("MsgHdr_sim.cfg", 7, 100, 1500)]}
+
+
+def run_part(pid, V, work, replay=None):
+    """Connection-level part for checks whose main module lives elsewhere (C07): scripts from the model in PLAN[pid],
+    driven on the real connection and judged by ConnProp (Check=pid).  Returns counts for the caller's evidence."""
+    thorough = vlib.tier() == "thorough"
+    if replay:
+        rc = json.load(open(replay))["case"]
+        if rc.get("kind") != "conn":
+            return {}
+        scripts = [rc["case"]]
+        st = {"states": 0, "transitions": 0}
+    else:
+        scripts, st = gen(pid, thorough)
+    binp = vlib.build_driver(pid, "conndrv")
+    w2 = vlib.outdir(pid, "connwork", clean=True)
+    traces = drive(pid, binp, scripts, w2, V)
+    acc = nrej = 0
+    sample = None
+    for tf, base in traces:
+        a, rej, s1, t1 = vlib.judge_traces(pid, "conn%d" % base, SPEC, "ConnProp", "Prop_%s.cfg" % pid, tf, timeout=2400, max_viol=5)
+        acc += a
+        nrej += len(rej)
+        with open(tf) as f:
+            lines = f.readlines()
+        for tno, line in rej:
+            t = vlib.extract_trace(tf, tno)
+            bad = json.loads(lines[line])
+            V.violation(sig_of(pid, bad), "real connection trace rejected by ConnProp (Check=%s) at event %s" % (pid, json.dumps(bad)[:300]),
+                        {"kind": "conn", "case": scripts[base + tno], "rejected_event": bad, "trace": t})
+        if sample is None and a:
+            sample = {"script": scripts[base]["steps"][:8], "trace": vlib.extract_trace(tf, 0)[:20]}
+    distinct = len({json.dumps(s["steps"], sort_keys=True) for s in scripts})
+    log("conn part %s: %d scripts (%d distinct), %d traces accepted, %d rejected" % (pid, len(scripts), distinct, acc, nrej))
+    return {"traces": acc + nrej, "samples": [sample] if sample else [], "evaluations": len(scripts), "distinct": distinct,
+            "states": st["states"], "transitions": st["transitions"],
+            "rule": "" if pid != "C07" else "; connection level: header variants (session, key, id type, creation time offset, padding class, replay of an accepted id) "
+                    "of otherwise valid encrypted messages delivered to a real mtproto.Conn, one script per model state + simulated sequences"}
+
+
 def sig_of(pid, bad):
     ev = bad.get("ev")
     extra = ""
